@@ -1,4 +1,5 @@
 import Bclv.Proofs.LexLfs
+import Bclv.Proofs.LexGhost3
 /-!
 # C07 — streaming parse does not depend on how the input is chunked
 
@@ -12,11 +13,14 @@ incomplete rune left decodes what is there).  `Whole` is the same lexer on the w
   rune, between the two characters of an operator or an escape, empty chunks anywhere;
 * `line_table`: when the lexer reaches the end of input the line table built chunk by chunk
   is the table of the whole input;
-* `parse_outcome`: then the compiled program (code, constants, positions, line table), the
-  diagnostics and the statistics of `Parse` on chunks are those of `Parse` on the whole
-  input.  After a lexical failure the tokens are still equal (`lex_tokens`); the diagnostics
-  then depend on the line table only below the failure position (C08 `lineColAt_append`),
-  which the `partitions` stream compares on every run.
+* `parse_outcome`: for **every** list of chunks the compiled program (code, constants,
+  positions, line table), the diagnostics and the statistics of `Parse` on chunks are those of
+  `Parse` on the whole input — also when the lexer stops at a lexical failure long before the
+  input is exhausted and the line table is only partly built: no token lies beyond what has
+  been received (`tokens_within_received`), the missing entries all lie at or beyond that
+  point (`line_table_prefix`), and the parser looks positions up only at its tokens
+  (`parse_lfs`, a relational proof through every parser function);
+* `parse_outcome_at_eof`: the earlier form with the hypothesis that the lexer reached the end.
 -/
 namespace Bclv.C07
 open Bclv
@@ -28,9 +32,30 @@ theorem line_table (chunks : List Bytes) (heof : headTyp (winRun chunks) = some 
     (lexChunks chunks).2 = newlinesFrom 0 chunks.flatten :=
   lfs_chunk_indep chunks heof
 
-theorem parse_outcome (name : Bytes) (chunks : List Bytes) (heof : headTyp (winRun chunks) = some .EOF) :
+theorem parse_outcome_at_eof (name : Bytes) (chunks : List Bytes) (heof : headTyp (winRun chunks) = some .EOF) :
     parseChunks name chunks = parseWhole name chunks.flatten :=
   parse_chunk_indep name chunks heof
+
+/-- No token lies beyond the end of what the lexer has received. -/
+theorem tokens_within_received (chunks : List Bytes) :
+    ∀ t ∈ (winRun chunks).toks, t.pos ≤ WB (winRun chunks).s :=
+  win_tokens_bounded chunks
+
+/-- Wherever the lexer stopped, the line table built so far is a prefix of the table of the whole
+input, and what is missing lies at or beyond the end of what was received. -/
+theorem line_table_prefix (chunks : List Bytes) :
+    ∃ rem, (lexChunks chunks).2 ++ rem = newlinesFrom 0 chunks.flatten ∧ ∀ x ∈ rem, WB (winRun chunks).s ≤ x :=
+  win_lfs_prefix chunks
+
+/-- **The outcome of `Parse` does not depend on the chunks — for every input.** -/
+theorem parse_outcome (name : Bytes) (chunks : List Bytes) :
+    parseChunks name chunks = parseWhole name chunks.flatten :=
+  parse_chunk_indep_all name chunks
+
+/-- Two deliveries of the same bytes give the same outcome. -/
+theorem any_two_deliveries (name : Bytes) (c₁ c₂ : List Bytes) (h : c₁.flatten = c₂.flatten) :
+    parseChunks name c₁ = parseChunks name c₂ := by
+  rw [parse_outcome, parse_outcome, h]
 
 /-- Two deliveries of the same bytes give the same tokens. -/
 theorem any_two_partitions (c₁ c₂ : List Bytes) (h : c₁.flatten = c₂.flatten) :
@@ -47,5 +72,10 @@ example : (lexChunks [[112, 114, 105, 110, 116, 32, 34, 195], [169, 34]]).1
     = lexWhole [112, 114, 105, 110, 116, 32, 34, 195, 169, 34] := lex_tokens _
 
 example : headTyp (winRun [[112, 114, 105, 110, 116, 32, 34, 195], [169, 34]]) = some .EOF := by decide
+
+/-- non-vacuity of the failure case: `$` then a newline in a later chunk — the lexer stops in the
+first chunk, the line table stays empty, the diagnostic is the one of the whole input -/
+example : headTyp (winRun [[36], [10, 120]]) = some .FAIL ∧ (lexChunks [[36], [10, 120]]).2 = []
+    ∧ newlinesFrom 0 [36, 10, 120] = [1] := by decide
 
 end Bclv.C07
